@@ -72,10 +72,16 @@ func (c *vHC) genAccount(r vh.R, id types.ServiceID, kv *types.StateKeyVals, ric
 			if _, dup := c.planted[e.Key]; dup {
 				continue
 			}
+			if _, dup := a.StorageDict[string(k)]; dup { // one state key cannot be both parsed and unparsed
+				continue
+			}
 			*kv = append(*kv, e)
 			c.planted[e.Key] = vPlanted{svc: id, klen: len(k)}
 		} else {
 			if _, dup := a.StorageDict[string(k)]; dup {
+				continue
+			}
+			if _, dup := c.planted[merklization.WrapEncodeDelta2KeyVal(id, k, nil).Key]; dup {
 				continue
 			}
 			a.StorageDict[string(k)] = v
@@ -112,9 +118,18 @@ func (c *vHC) genAccount(r vh.R, id types.ServiceID, kv *types.StateKeyVals, ric
 			if _, dup := c.planted[e.Key]; dup {
 				continue
 			}
+			if _, dup := a.LookupDict[key]; dup {
+				continue
+			}
 			*kv = append(*kv, e)
 			c.planted[e.Key] = vPlanted{svc: id, lookup: true, z: z}
 		} else {
+			if _, dup := c.planted[merklization.EncodeDelta4KeyVal(id, key, slots).Key]; dup {
+				continue
+			}
+			if _, dup := a.LookupDict[key]; dup {
+				continue
+			}
 			a.LookupDict[key] = slots
 		}
 		c.hashes = append(c.hashes, hh)
